@@ -163,6 +163,7 @@ func main() {
 	runLong(r)
 	runContent(r)
 	runHistory(r)
+	runManyLabels(r)
 	runReal(r)
 	runPlugins(r)
 	cliStage(r)
